@@ -385,3 +385,107 @@ std_stubs! { #[kani::unwind(6)] pub(crate) fn a_bol_hasbol_m_n2() { a_bol_hasbol
 //@ bound: program Bol with OPT_HASBOL, no flag m; input <= 3 chars over all scalar values; start 0..=len
 //@ encodes: ReMatcher::matches(OPT_HASBOL-path) ReMatcher::match_at Bol::matches_iter
 std_stubs! { #[kani::unwind(7)] pub(crate) fn a_bol_hasbol_n3() { a_bol_hasbol::<3>(false) } }
+
+// ---- start-anchor fast path as a scan schedule (C08, C12) -------------------
+// Program = Atom[c] with OPT_HASBOL, flag m: the fast path promises to try the
+// search start itself and then every line start behind it (a position after a
+// newline that is not the last character), in increasing order.  Unlike a bare
+// `^`, this program can FAIL at a line start, so the line-seeking loop has to
+// carry on correctly after a failed attempt (empty lines included).
+fn a_hasbol_atom<const N: usize>(from_zero: bool) {
+    let c: char = kani::any();
+    let mut p = bare(Operation::from(Atom::new(vec![c])), flags("m"));
+    p.optimization_flags = OPT_HASBOL;
+    let mut m = ReMatcher::new(&p, "");
+    let (v, len) = sym_input::<N>();
+    m.search = v;
+    let start: usize = if from_zero { 0 } else { kani::any() };
+    kani::assume(start <= len);
+    let want = leftmost::<N, _>(start, len, |j| {
+        let tried = j == start || (j > start && j < len && m.search[j - 1] == '\n');
+        if tried && j < len && m.search[j] == c { Some(j + 1) } else { None }
+    });
+    kani::cover!(N < 3 || !from_zero || (matches!(want, Some((2, _))) && m.search[0] == '\n' && m.search[1] == '\n'),
+        "match on the line after an empty line");
+    kani::cover!(want.is_none() && len == N, "no line start matches");
+    kani::cover!(matches!(want, Some((s, _)) if s == start), "match at the search start itself");
+    let r = compare_search(&mut m, start, want);
+    kani::assert(r.found_ok, "C12.hasbol-scan.every-line-start-is-tried");
+    kani::assert(r.start_ok && r.end_ok, "C12.hasbol-scan.leftmost-line-start");
+    std::mem::forget(m);
+    std::mem::forget(p);
+}
+
+//@ harness: a_hasbol_atom_m_n3
+//@ props: C12 C08 C01
+//@ tier: thorough
+//@ cost: 3000
+//@ timeout: 3400
+//@ mem: 30
+//@ bound: program Atom[c] with OPT_HASBOL, flag m (line-seeking loop after failed attempts); c any scalar value; input <= 3 chars over all scalar values; search from position 0
+//@ encodes: ReMatcher::matches(OPT_HASBOL-path,line-seeking) ReMatcher::match_at Atom::matches_iter
+std_stubs! { #[kani::unwind(8)] pub(crate) fn a_hasbol_atom_m_n3() { a_hasbol_atom::<3>(true) } }
+
+//@ harness: a_hasbol_atom_m_n2
+//@ props: C12 C08 C01
+//@ tier: quick
+//@ cost: 300
+//@ bound: program Atom[c] with OPT_HASBOL, flag m; input <= 2 chars over all scalar values; start 0..=len
+//@ encodes: ReMatcher::matches(OPT_HASBOL-path,line-seeking) ReMatcher::match_at Atom::matches_iter
+std_stubs! { #[kani::unwind(7)] pub(crate) fn a_hasbol_atom_m_n2() { a_hasbol_atom::<2>(false) } }
+
+//@ harness: a_hasbol_atom_m_n4
+//@ props: C12 C08 C01
+//@ tier: thorough
+//@ cost: 3000
+//@ mem: 30
+//@ timeout: 3400
+//@ bound: program Atom[c] with OPT_HASBOL, flag m; input <= 4 chars over all scalar values; search from position 0
+//@ encodes: ReMatcher::matches(OPT_HASBOL-path,line-seeking) ReMatcher::match_at Atom::matches_iter
+std_stubs! { #[kani::unwind(9)] pub(crate) fn a_hasbol_atom_m_n4() { a_hasbol_atom::<4>(true) } }
+
+// ---- prefix scan on a three-character literal (what flag q compiles to) ------
+// op = Nothing keeps match_at cheap: the subject is the comparison loop of the
+// prefix scan (partial matches of a self-overlapping literal must not make it
+// skip candidate starts).
+fn a_prefix3_scan<const N: usize>(ci: bool) {
+    let c1: char = kani::any();
+    let c2: char = kani::any();
+    let c3: char = kani::any();
+    let mut p = bare(Operation::from(Nothing), if ci { flags("i") } else { flags("") });
+    p.prefix = Some(vec![c1, c2, c3]);
+    p.minimum_length = 3;
+    let mut m = ReMatcher::new(&p, "");
+    let (v, len) = sym_input::<N>();
+    m.search = v;
+    let start: usize = kani::any();
+    kani::assume(start <= len);
+    let eq = |a: char, b: char| if ci { model_eq_ci(a, b) } else { a == b };
+    let want = leftmost::<N, _>(start, len, |j| {
+        if j + 3 <= len && eq(m.search[j], c1) && eq(m.search[j + 1], c2) && eq(m.search[j + 2], c3) { Some(j) } else { None }
+    });
+    kani::cover!(N < 4 || (matches!(want, Some((1, _))) && start == 0 && eq(m.search[0], c1) && eq(m.search[1], c2)),
+        "occurrence at 1 overlapped by a two-character partial match at 0");
+    kani::cover!(want.is_none() && len == N, "literal does not occur");
+    let r = compare_search(&mut m, start, want);
+    kani::assert(r.found_ok, "C13.prefix-scan.finds-every-occurrence");
+    kani::assert(r.start_ok && r.end_ok, "C02.prefix-scan.leftmost-occurrence");
+    std::mem::forget(m);
+    std::mem::forget(p);
+}
+
+//@ harness: a_prefix3_scan_n4
+//@ props: C13 C08 C02 C01
+//@ tier: quick
+//@ cost: 400
+//@ bound: program with prefix=[c1,c2,c3] (all scalar values, self-overlapping literals included), operation Nothing, minimum_length=3; input <= 4 chars over all scalar values; start 0..=len: found iff the literal occurs at or after start, at its leftmost occurrence
+//@ encodes: ReMatcher::matches(prefix-scan,minimum-length) ReMatcher::match_at
+std_stubs! { #[kani::unwind(8)] pub(crate) fn a_prefix3_scan_n4() { a_prefix3_scan::<4>(false) } }
+
+//@ harness: a_prefix3_scan_i_n4
+//@ props: C13 C08 C11
+//@ tier: thorough
+//@ cost: 900
+//@ bound: the same with flag i (case-blind comparison loop, arithmetic case model)
+//@ encodes: ReMatcher::matches(case-blind-prefix-scan) ReMatcher::equal_case_blind
+std_stubs! { #[kani::unwind(8)] pub(crate) fn a_prefix3_scan_i_n4() { a_prefix3_scan::<4>(true) } }
